@@ -22,8 +22,9 @@ ParseRes(c, bytes) ==
 
 Display(c, s) == [i \in 1 .. Len(s) |-> Char(c, s[i])]
 
-\* what any reader of a sequence value can see
-View(c, s) == [len |-> Len(s), syms |-> s, disp |-> Display(c, s)]
+\* what any reader of a sequence value can see; canon: the value equals, and hashes like, the
+\* sequence rebuilt from its own symbols (content is all there is, C02)
+View(c, s) == [len |-> Len(s), syms |-> s, disp |-> Display(c, s), canon |-> TRUE]
 
 \* trimming: strict parsing of the span between the first and last acceptable byte (C19)
 TrimRes(c, bytes) ==
